@@ -532,14 +532,31 @@ Fixpoint project (c : cfg) (s : state) (ls : list label) : list event :=
 Definition model_trace_ok (sc : scen) : bool :=
   let '(_, ls, _) := canonical sc in accepts (project (sc_cfg sc) init (rev ls)).
 
+(* receivers that hold the channel of a caller who is not (yet, or no longer) waiting, while time passes: the largest
+   number seen at a clock tick of the canonical run (the harness samples the goroutines inside AdapterProxy.Recv) *)
+Definition holders (s : state) : N :=
+  N.of_nat (length (filter (fun x => match r_pc x with RFound j => negb (is_waiting s j) | _ => false end) (rcvs s))).
+Fixpoint held_at_ticks (c : cfg) (s : state) (ls : list label) : N :=
+  match ls with
+  | [] => 0
+  | l :: r => match step c s l with
+              | Some s' => N.max (match l with Tick => holders s | _ => 0 end) (held_at_ticks c s' r)
+              | None => 0 end
+  end.
+Definition model_held (sc : scen) : N :=
+  let '(_, ls, _) := canonical sc in held_at_ticks (sc_cfg sc) init (rev ls).
+
 (* ---------- a correspondence case ---------- *)
 Record c09case := mkcase {
   cc_cfg : cfg; cc_conn : connmode; cc_acts : list act; cc_callers : nat; cc_calls : nat; cc_eff : N; cc_gap : N;
-  cc_oneway : bool; cc_prime : bool; cc_predict : bool; cc_obs : list (ocls * N); cc_events : list event; cc_final : N * N * N }.
+  cc_oneway : bool; cc_prime : bool; cc_predict : bool;
+  cc_held : option N (* largest number of reply receivers seen blocked at once, when sampled *); cc_obs : list (ocls * N); cc_events : list event; cc_final : N * N * N }.
 
 Definition c09_check (x : c09case) : bool :=
   let sc := mkscen (cc_cfg x) (cc_conn x) (cc_acts x) (cc_callers x) (cc_calls x) (cc_eff x) (cc_gap x) (cc_oneway x) (cc_prime x) in
-  (if cc_predict x then predicted sc (cc_obs x) && model_trace_ok sc else true)
+  (if cc_predict x then predicted sc (cc_obs x) && model_trace_ok sc &&
+                        match cc_held x with Some h => model_held sc <=? h | None => true end
+   else true)
   && accepts (cc_events x)
   && (let '(q, n, p) := cc_final x in (q =? 0) && (n =? 0) && (p =? 0)).
 
